@@ -1,5 +1,6 @@
 import LasModel.Props.C14
-open LasModel.Props.C14
+import LasModel.Props.C14File
+open LasModel.Props.C14 LasModel.Props.C14File
 #print axioms C14_decision_open
 #print axioms C14_decision_write
 #print axioms C14_bit
@@ -8,3 +9,7 @@ open LasModel.Props.C14
 #print axioms C14_no_dup
 #print axioms C14_user_vlrs
 #print axioms C14_transparent
+#print axioms stub_codecLaws
+#print axioms sessionC_form
+#print axioms C14_file_roundtrip
+#print axioms C14_file_transparent
